@@ -355,6 +355,10 @@ let conv_status dt (m : z store) (s : z sstate option) (o : string) : (string * 
        Some (ms, ss, guard))
   | _ -> None
 
+(* the operation part of a finding class: the op, plus its name for the families with many *)
+let op_prefix (f : string array) : string =
+  f.(0) ^ (if Array.length f > 1 && (f.(0) = "bin" || f.(0) = "bins" || f.(0) = "cmp" || f.(0) = "cmps" || f.(0) = "un" || f.(0) = "apply" || f.(0) = "reduce" || f.(0) = "reducefn" || f.(0) = "arg" || f.(0) = "lin") then "." ^ List.hd (String.split_on_char '.' f.(1)) else "")
+
 let run_prog_gen (kept : bool) dt (prog : string) (impl : string) : outcome =
   (* dtype suffix @alt: the harness used the other API spelling of every operation that has one;
      the model and the SPEC are the same *)
@@ -403,6 +407,11 @@ let run_prog_gen (kept : bool) dt (prog : string) (impl : string) : outcome =
             (!st, !res)
           end in
         let before = !before in
+        (* the first step whose guard is not GOk taints the rest of the run *)
+        if !last_taint = "" && not is_ret then begin
+          let g = gname (zguard before op) in
+          if g <> "UNGUARDED" then last_taint := op_prefix (fields o) ^ ":" ^ g
+        end;
         m := m';
         if kept && not is_ret then begin
           (match op with
@@ -476,7 +485,11 @@ let run_prog_gen (kept : bool) dt (prog : string) (impl : string) : outcome =
                 let gn = if gn = "other" then "L" ^ String.concat "," (List.map (layout_tag before) ids) else gn in
                 (* TensorMul with negative axes (named in the glue: the Coq guard has no case for it) *)
                 let gn = if f.(0) = "tmul" && List.exists (fun x -> x < 0) (ints f.(3) @ ints f.(4)) then "negative-axes" else gn in
-                cls := f.(0) ^ (if Array.length f > 1 && (f.(0) = "bin" || f.(0) = "bins" || f.(0) = "cmp" || f.(0) = "cmps" || f.(0) = "un" || f.(0) = "apply" || f.(0) = "reduce" || f.(0) = "reducefn" || f.(0) = "arg" || f.(0) = "lin") then "." ^ List.hd (String.split_on_char '.' f.(1)) else "") ^ ":" ^ gn
+                (* a divergence at a step whose own guard holds, AFTER a step outside the guarded domain:
+                   the class is that earlier step's (symptom "latent") *)
+                let tainted = gn = "UNGUARDED" && !last_taint <> "" in
+                if tainted then cls := !last_taint ^ ":latent" else
+                cls := op_prefix f ^ ":" ^ gn
                        ^ ":" ^ symptom (strip_model_only mstr) sstr;
                 (* after a divergence the two states are no longer related *)
                 s := None
